@@ -1,10 +1,15 @@
-"""Effect extractor (C11, stage 2): translates every top-level function of synapgrad/cpu_ops.py and
-synapgrad/conv_tools.py into an abstract *effect program* (lean/SynapModel/Effects.lean) and rewrites
-lean/SynapModel/Generated/EffectTable.lean from /repo's current source on every run.
+"""Effect extractor (C11, stage 2): translates
+  phase 1  every top-level function of synapgrad/cpu_ops.py and synapgrad/conv_tools.py (the NumPy kernels),
+  phase 2  every op wrapper of synapgrad/functional.py and synapgrad/nn/functional.py together with its `backward` closure,
+  phase 3  every method of class Tensor and every constructor function of synapgrad/tensor.py
+into abstract *effect programs* (lean/SynapModel/Effects.lean) and rewrites lean/SynapModel/Generated/EffectTable.lean
+(`effectTable`, `tensorEffectTable`) from /repo's current source on every run.
 
-The judgement (`safe`) and its soundness are Lean (`Props.C11.kernels_never_write_operands`,
-`Proofs.Effects.safe_sound`); this file is the *translator*, which is trusted.  It is therefore
-written to fail towards "may alias" / "writes":
+The judgements (`safe`, `returnsFresh`) and their soundness are Lean (`Props.C11.kernels_never_write_operands`,
+`wrappers_never_write_data_or_upstream`, `clone_detach_return_fresh`, `Proofs.Effects.safe_sound`, `returnsFresh_sound`);
+this file is the *translator*, which is trusted.  It is therefore written to fail towards "may alias" / "writes".
+The tensor-level model of phases 2 and 3 (pseudo-variables, what is protected, the allowed writes) is described next
+to the constants below.
 
 variables     every parameter that can hold an array (no annotation, or an annotation that is not
               made of int/float/bool/str/tuple/None only) is a variable `0 … nparams-1` and is
@@ -44,7 +49,51 @@ import ast, os, re, sys
 import common
 import extract as _ex
 
-MODULES = ('synapgrad/cpu_ops.py', 'synapgrad/conv_tools.py')
+MODULES = ('synapgrad/cpu_ops.py', 'synapgrad/conv_tools.py')                  # phase 1: the NumPy kernels (every parameter protected)
+WRAPPER_MODULES = ('synapgrad/functional.py', 'synapgrad/nn/functional.py')     # phase 2: op wrappers and their `backward` closures
+TENSOR_MODULES = ('synapgrad/tensor.py',)                                      # phase 3: class Tensor and the constructors
+HELPER_MODULES = ('synapgrad/utils.py',)                                       # inlined where called, not table members
+ALL_MODULES = MODULES + WRAPPER_MODULES + TENSOR_MODULES + HELPER_MODULES
+
+# ---- the tensor-level model (phases 2 and 3) -----------------------------------------------------------------------
+# Every object-valued variable `t` has pseudo-variables `t.data` (the array) and `t._grad` (the gradient buffer).  For a parameter `t` of a wrapper / method:
+#   t, t.data   PROTECTED   (operands and targets: neither the array object nor its memory may be modified)
+#   t._grad     not protected: `t._grad += g` is the documented accumulation of backward
+#   <upstream>  PROTECTED   one extra parameter per kernel: the gradient buffer the engine has stored on the *result*
+#               (`out._grad`) when the closure runs; for the root it is the copy of the caller's gradient
+# What the property allows to change tensor data in place (everything else is judged):
+#   * accumulation into / zeroing of gradient buffers: `x._grad += …`, `zero_()`, `zero_grad()`
+#   * batch-norm running statistics in training: DATA_REBIND_ALLOWED (a re-binding of `.data`, no buffer is written)
+#   * optimizer `step`, initialisers `nn.init.*_` : other modules, not analysed here
+#   * flags and bookkeeping (`requires_grad`, `retain_grad()`, `grad_fn`, names…): TENSOR_META_ATTRS, not data
+# Rules specific to the pseudo-variables:
+#   * `t._grad = e` / `t.grad = e` (re-binding) additionally emits `write t._grad`: some later closure will accumulate into
+#     whatever `t._grad` is bound to, so a re-binding to anything that may share memory with an operand's data or with the
+#     upstream gradient is a violation (the statements of all closures are merged through this one write).
+#   * `t.data = e` on anything but DATA_REBIND_ALLOWED emits `write t.data` (the operand's data changes without a buffer write)
+#   * `Tensor(d, children=c)`: a new object r with r.data ∈ {d, fresh}, r._grad = <upstream> (only when `children` is given: a
+#     result; a tensor built without children starts with `_grad = None`), children recorded in `<children>`; if d is itself a
+#     tensor (copy constructor) r shares its fields.  `t.grad` (getter) is a new tensor whose `.data` IS `t._grad`.
+#     (checked against tensor.py by `check_tensor_model`)
+#   * `t.grad_fn()` / `node.grad_fn()` runs a backward closure: it writes `_grad` buffers of the tensors reachable from the
+#     receiver and nothing else — which is what the table theorem proves for every closure of phase 2.
+FIELDS = ('data', '_grad')
+# `t._children`: for a parameter (or anything derived from one) the object stands for the whole graph it was computed from;
+# for tensors constructed inside the kernel the children go to one variable `<children>` that every `._children` read includes
+TENSOR_SCALAR_ATTRS = {'requires_grad', '_requires_grad', 'device', 'is_leaf', 'name', '_name', '_operation', '_retain_grad',
+                       'is_floating_point', 'is_initialized', '_initialized'}
+TENSOR_META_ATTRS = {'_requires_grad', 'requires_grad', '_retain_grad', '_name', 'name', 'grad_fn', '_grad_fn', '_operation',
+                     '_current_idx', 'device', '_initialized', 'prev'}
+DATA_REBIND_ALLOWED = {('batch_norm', 'running_mean'), ('batch_norm', 'running_var')}
+# functions whose result must be storage independent of everything they were given (property: "clone() and detach() return
+# storage independent of their source"); pinned by Props.C11.clone_detach_return_fresh
+FRESH_RESULTS = ('clone_forward', 'clone', 'Tensor.clone', 'Tensor.detach')
+# not operations on tensor data: drawing / printing (they import matplotlib / graphviz helpers)
+NOT_ANALYSED = {'Tensor.draw_graph', 'Tensor.__repr__', 'Tensor.__str__', 'lazy_import',
+                # `t.grad = g` stores `g.data` itself as the gradient buffer (deliberate sharing requested by the caller, as in
+                # PyTorch): as a kernel of its own it violates the re-binding rule by design; it is inlined where the library
+                # calls it (`zero_`: a fresh array) and reported in the summary
+                'Tensor.grad.setter'}
 OUTPUT_PARAMS = {}            # {'function name': ['parameter', …]} — deliberate output parameters: none
 # parameters that hold a *sequence of arrays* although they are annotated `np.ndarray` (the wrappers in functional.py pass
 # `[t.data for t in x]`): operators on them are list operators, which keep references to the elements
@@ -75,7 +124,8 @@ NP_FRESH = {**{f: 1 for f in UFUNC1}, **{f: 2 for f in UFUNC2}, **{f: 2 for f in
             'unique': None, 'diff': None, 'cross': None, 'kron': None, 'trace': 4, 'tril': None, 'triu': None,
             'nonzero': None, 'argwhere': None, 'unravel_index': None, 'ravel_multi_index': None, 'take': 3,
             'take_along_axis': None, 'isclose': None, 'allclose': None, 'array_equal': None, 'float64': None,
-            'float32': None, 'int64': None, 'int32': None, 'bool_': None}
+            'float32': None, 'int64': None, 'int32': None, 'bool_': None,
+            'random.rand': None, 'random.randn': None, 'random.normal': None, 'random.randint': None, 'random.uniform': None}
 # NumPy functions whose result may share memory with (or be) an argument and that write nothing
 NP_ALIAS = {'reshape', 'ravel', 'squeeze', 'expand_dims', 'moveaxis', 'swapaxes', 'rollaxis', 'transpose', 'broadcast_to',
             'broadcast_arrays', 'atleast_1d', 'atleast_2d', 'atleast_3d', 'asarray', 'asanyarray', 'ascontiguousarray',
@@ -102,6 +152,10 @@ M_WRITERS = {'fill', 'sort', 'resize', 'put', 'itemset', 'partition', 'setfield'
              '__iand__', '__ior__', '__ixor__', 'pop', 'popitem', 'remove', 'clear', 'reverse'}
 M_CONTAINER_ADD = {'append', 'extend', 'insert', 'add', 'update', 'setdefault', 'appendleft'}
 M_NOOP = {'setflags'}
+# methods that no ndarray has: they modify a container object (a list / set / dict), never array memory; what they can
+# violate is the caller's container, so they count as a write of the parameters whose container the receiver may be
+M_CONTAINER_ONLY = {'pop', 'popitem', 'remove', 'clear', 'reverse', 'append', 'extend', 'insert', 'add', 'update', 'setdefault', 'appendleft'}
+PURE_CLASSES = {'BackwardFunction'}            # constructors of analysed modules that only store their arguments
 
 B_SCALAR = {'int', 'float', 'bool', 'str', 'repr', 'len', 'range', 'isinstance', 'issubclass', 'type', 'print', 'hasattr', 'id',
             'hash', 'abs', 'round', 'callable', 'ord', 'chr', 'divmod', 'pow', 'complex', 'bytes', 'format'}
@@ -129,19 +183,22 @@ def is_list_annotation(ann):
 
 class Val:
     """abstract value of an expression: the variables it may share memory with; whether it may be a container"""
-    __slots__ = ('srcs', 'cont')
-    def __init__(self, srcs=(), cont=0):
+    __slots__ = ('srcs', 'cont', 'ident')
+    def __init__(self, srcs=(), cont=0, ident=()):
         # cont: nesting depth of containers around the arrays: 0 = an array or a scalar, 1 = a list / tuple of arrays,
         # 2 = a list of those, DEEP = unknown.  A larger depth is always the more conservative answer.
         self.srcs, self.cont = frozenset(srcs), min(int(cont), DEEP)
+        # ident: the parameters whose *container object* (the caller's list / dict itself, not a new list holding the same
+        # elements) the value may be — what `append` / `pop` / `clear` … modify
+        self.ident = frozenset(ident)
     def __or__(self, o):
-        return Val(self.srcs | o.srcs, max(self.cont, o.cont))
+        return Val(self.srcs | o.srcs, max(self.cont, o.cont), self.ident | o.ident)
     def wrap(self, least=0):
         """a container holding such values"""
         return Val(self.srcs, max(self.cont, least) + 1)
     def elem(self):
         """an element taken out of such a container"""
-        return Val(self.srcs, self.cont if self.cont >= DEEP else max(self.cont - 1, 0))
+        return Val(self.srcs, self.cont if self.cont >= DEEP else max(self.cont - 1, 0), self.ident)
 
 DEEP = 3
 NOTHING = Val()
@@ -213,15 +270,41 @@ class Context:
         self.np_names = {}    # rel -> set of names bound to the numpy module
         self.imported = {}    # rel -> {local name: (rel of defining module, name)}
         self.other_toplevel = {}
-        for rel in MODULES:
+        self.root = root
+        self.classes = {}     # rel -> {class name: {method name: FunctionDef}}
+        self.modalias = {}    # rel -> {local name: rel of the analysed module it is bound to}
+        mods = [m for m in ALL_MODULES if os.path.exists(os.path.join(root, m))]
+        self.present = mods
+        dotted = {m[:-3].replace('/', '.'): m for m in ALL_MODULES}
+        for rel in mods:
             tree = ast.parse(open(os.path.join(root, rel)).read())
             self.funcs[rel] = {n.name: n for n in tree.body if isinstance(n, ast.FunctionDef)}
+            self.classes[rel] = {n.name: {m.name: m for m in n.body if isinstance(m, ast.FunctionDef)} for n in tree.body if isinstance(n, ast.ClassDef)}
+            self.modalias[rel] = {}
+            for n in ast.walk(tree):
+                # `from synapgrad import cpu_ops`, `from . import functional as F`, `import synapgrad.functional as F`,
+                # `F = importlib.import_module("synapgrad.functional")`
+                if isinstance(n, ast.ImportFrom):
+                    base = (n.module or '') if n.level == 0 else '.'.join(rel[:-3].split('/')[:-n.level] + ([n.module] if n.module else []))
+                    for a in n.names:
+                        if (base + '.' + a.name) in dotted:
+                            self.modalias[rel][a.asname or a.name] = dotted[base + '.' + a.name]
+                if isinstance(n, ast.Import):
+                    for a in n.names:
+                        if a.name in dotted and a.asname:
+                            self.modalias[rel][a.asname] = dotted[a.name]
+                if isinstance(n, ast.Assign) and len(n.targets) == 1 and isinstance(n.targets[0], ast.Name) and isinstance(n.value, ast.Call) \
+                        and ast.unparse(n.value.func) == 'importlib.import_module' and n.value.args and isinstance(n.value.args[0], ast.Constant) \
+                        and n.value.args[0].value in dotted:
+                    self.modalias[rel][n.targets[0].id] = dotted[n.value.args[0].value]
             self.np_names[rel] = set()
             self.imported[rel] = {}
-            self.other_toplevel[rel] = [type(n).__name__ for n in tree.body if isinstance(n, (ast.ClassDef, ast.AsyncFunctionDef))]
+            self.other_toplevel[rel] = [f'{type(n).__name__} {n.name}' for n in tree.body if isinstance(n, (ast.ClassDef, ast.AsyncFunctionDef))
+                                        and not (rel in TENSOR_MODULES and n.name == 'Tensor')]
             # module-level names bound by anything but `import numpy …` / `def`: a builtin or the NumPy alias rebound there is not trusted
             self.rebound = getattr(self, 'rebound', {})
-            mod_bound = bound_names([n for n in tree.body if not isinstance(n, (ast.FunctionDef, ast.Import, ast.ImportFrom))])
+            mod_bound = bound_names([n for n in tree.body if not isinstance(n, (ast.FunctionDef, ast.Import, ast.ImportFrom, ast.ClassDef))])
+            mod_bound = [b for b in mod_bound if b not in self.modalias[rel]]
             dup = [n.name for n in tree.body if isinstance(n, ast.FunctionDef)]
             self.rebound[rel] = set(mod_bound) | {d for d in dup if dup.count(d) > 1}
             for n in tree.body:
@@ -238,19 +321,59 @@ class Context:
             return rel, self.funcs[rel][name]
         if name in self.imported[rel]:
             mod, orig = self.imported[rel][name]
-            for r in MODULES:
+            for r in self.present:
                 if r[:-3].replace('/', '.') == mod and orig in self.funcs[r]:
                     return r, self.funcs[r][orig]
         return None
 
+    def resolve_attr(self, rel, alias, name):
+        """a call `alias.name(…)` where `alias` is bound to an analysed module"""
+        r = self.modalias[rel].get(alias)
+        if r is not None and r in self.funcs and name in self.funcs[r]:
+            return r, self.funcs[r][name]
+        return None
+
+    def is_tensor_class(self, rel, name):
+        if name != 'Tensor':
+            return False
+        if name in self.classes.get(rel, {}):
+            return rel in TENSOR_MODULES
+        return self.imported[rel].get(name, ('', ''))[0] == 'synapgrad.tensor'
+
+    def tensor_methods(self):
+        for r in TENSOR_MODULES:
+            if r in self.classes and 'Tensor' in self.classes[r]:
+                return r, self.classes[r]['Tensor']
+        return None, {}
+
+
+def vkey(v):
+    return (1, str(v)) if isinstance(v, tuple) else (0, v)
+
+
+def vdepth(v):
+    return 1 + vdepth(v[0]) if isinstance(v, tuple) else 0
+
 
 class KernelTranslator:
-    def __init__(self, ctx, rel, fn, cont):
+    def __init__(self, ctx, rel, fn, carry, qualname=None, self_class=None):
         self.ctx, self.rel0, self.fn = ctx, rel, fn
+        self.qualname = qualname or fn.name
+        self.phase = 1 if rel in MODULES else 2 if rel in WRAPPER_MODULES else 3
         self.varnames = []
         self.stmts = []            # ('assign', v, frozenset | None, line) / ('write', v, line)
-        self.cont_in = dict(cont)
-        self.cont = dict(cont)
+        # variables: main variables are ints (numbered in order of creation), pseudo-variables are (base, field) pairs
+        self.cont_in = dict(carry.get('cont', {}))
+        self.cont = dict(self.cont_in)
+        self.fielded_in = set(carry.get('fielded', ()))      # object-valued variables whose fields are materialised
+        self.fielded = set(self.fielded_in)
+        self.rebound_in = set(carry.get('rebound', ()))      # fields that some statement re-binds (`t.data = …`): links go both ways
+        self.rebound = set(self.rebound_in)
+        self.ident_in = {k: set(v) for k, v in carry.get('ident', {}).items()}
+        self.ident = {k: set(v) for k, v in self.ident_in.items()}
+        self.fieldvars = set()
+        self.upstream = None
+        self.objparams = set()
         self.unknown, self.unsupported, self.fallbacks, self.inlined = [], [], 0, 0
         self.wild = []
         self.stack = []
@@ -261,25 +384,78 @@ class KernelTranslator:
         self.varnames.append(name)
         return len(self.varnames) - 1
 
+    def carry(self):
+        return {'cont': dict(self.cont), 'fielded': set(self.fielded), 'rebound': set(self.rebound),
+                'ident': {k: set(v) for k, v in self.ident.items() if v}}
+
+    def can_have_fields(self, v):
+        return not isinstance(v, tuple)
+
+    def is_fielded(self, v):
+        return v in self.fielded or v in self.fielded_in
+
+    def field(self, v, f, line=0):
+        """the pseudo-variable `v.f`"""
+        if not self.can_have_fields(v):
+            return v                              # `.data` of an array is (a view of) the array
+        self.fielded.add(v)
+        fv = (v, f)
+        self.fieldvars.add(fv)
+        return fv
+
+    def link(self, v, u, line, seen=None):
+        """`v` may be the object `u`: their fields are the same cells"""
+        seen = set() if seen is None else seen
+        if v == u or (v, u) in seen or not self.can_have_fields(v) or not self.can_have_fields(u):
+            return
+        seen.add((v, u))
+        if not self.is_fielded(v):
+            return                                # demand-driven: only the fields somebody reads or writes are materialised
+        for f in FIELDS:
+            fv, fu = self.field(v, f), self.field(u, f)
+            if fv != fu:
+                self.raw_assign(fv, [fu], line)
+                if f in self.rebound or f in self.rebound_in:
+                    self.raw_assign(fu, [fv], line)
+
+    def raw_assign(self, v, srcs, line):
+        self.stmts.append(('assign', v, frozenset(srcs) if srcs else None, line))
+
     def assign(self, v, val, line):
-        self.stmts.append(('assign', v, frozenset(val.srcs) if val.srcs else None, line))
+        self.raw_assign(v, val.srcs, line)
         self.taint(v, val.cont)
+        if val.ident:
+            self.ident.setdefault(v, set()).update(val.ident)
+        for u in sorted(val.srcs, key=vkey):
+            self.link(v, u, line)
 
     def write(self, val, line):
-        for v in sorted(val.srcs):
+        for v in sorted(val.srcs, key=vkey):
             self.stmts.append(('write', v, line))
+
+    def write_deep(self, val, line):
+        """an unknown callee may do anything to the objects it can reach: they and their arrays are written"""
+        self.write(val, line)
+        if self.phase > 1:
+            for v in sorted(val.srcs, key=vkey):
+                if self.can_have_fields(v):
+                    for f in ('data', '_grad'):
+                        self.stmts.append(('write', self.field(v, f), line))
 
     def taint(self, v, depth):
         if depth > self.cont.get(v, 0):
             self.cont[v] = min(depth, DEEP)
 
     def is_cont(self, v):
+        if isinstance(v, tuple):
+            return 0
         return max(self.cont_in.get(v, 0), self.cont.get(v, 0))
 
     def unsupported_construct(self, node, what):
         self.unsupported.append(f'{what} (line {getattr(node, "lineno", 0)})')
         for p in self.params:
-            self.stmts.append(('write', p, getattr(node, 'lineno', 0)))
+            if p != self.upstream and not (isinstance(p, tuple) and p[1] == '_grad'):
+                self.stmts.append(('write', p, getattr(node, 'lineno', 0)))
 
     # ------------------------------------------------------------------ frames
     def top(self):
@@ -297,31 +473,53 @@ class KernelTranslator:
                 v = self.newvar(p.arg)
                 fr.names[p.arg] = v
                 self.params.append(v)
-                if p.arg not in out_params:
-                    self.protected.append(v)
+                ann = p.annotation
+                ann_s = '' if ann is None else (ann.value if isinstance(ann, ast.Constant) and isinstance(ann.value, str) else ast.unparse(ann))
+                is_tensor = self.phase > 1 and ('Tensor' in ann_s or (self.phase == 3 and p.arg == 'self' and self.qualname.startswith('Tensor.')))
+                if p.arg not in out_params and not is_tensor:
+                    self.protected.append(v)         # a Tensor object is not array memory: its `.data` is what is protected
+                if self.phase > 1:
+                    self.objparams.add(v)
+                    self.fielded.add(v)
+                    for f in ('data', '_grad'):
+                        self.fieldvars.add((v, f))
+                        self.params.append((v, f))
+                    self.protected.append((v, 'data'))
                 if is_list_annotation(p.annotation) or p is a.vararg or p is a.kwarg or p.arg in SEQUENCE_PARAMS.get(fn.name, []):
                     self.taint(v, DEEP)
+        if self.phase > 1:
+            self.upstream = self.newvar('<upstream>')
+            self.params.append(self.upstream)
+            self.protected.append(self.upstream)
         self.nparams = len(self.params)
         for d in list(a.defaults) + [d for d in a.kw_defaults if d is not None]:
             self.ev(d, fr)
-        if fn.decorator_list:
+        if [d for d in fn.decorator_list if not (self.phase == 3 and (ast.unparse(d) == 'property' or ast.unparse(d).endswith('.setter')))]:
             self.unsupported_construct(fn, 'decorated function')
         fr.ret = self.newvar('<ret>')
+        self.result = fr.ret
+        self.kids = None
+        if self.phase > 1:
+            self.kids = self.newvar('<children>')
+            self.result = self.newvar('<result array>')
+            self.fielded.add(fr.ret)
         for n in bound_names(fn.body):
-            if n not in fr.names:
+            if n not in fr.names and n not in self.ctx.modalias[self.rel0]:
                 fr.scalars.discard(n)            # a rebound scalar parameter becomes an ordinary variable
                 fr.names[n] = self.newvar(n)
         self.stack.append((self.rel0, fn.name))
         self.rel = self.rel0
         self.block(fn.body, fr)
         self.stack.pop()
+        if self.phase > 1:
+            self.raw_assign(self.result, [fr.ret, self.field(fr.ret, 'data')], 0)
         # wildcard variables (parameters of escaping lambdas / nested functions) may be anything
-        everything = Val(range(len(self.varnames)), DEEP)
+        everything = Val(list(range(len(self.varnames))) + sorted(self.fieldvars, key=vkey), DEEP)
         for w in self.wild:
             self.assign(w, everything, 0)
         return fr
 
-    def callee_frame(self, fn, label, parent=None):
+    def callee_frame(self, fn, label, parent=None, rel=None):
         """frame of an inlined callee or nested function: every parameter is a variable"""
         fr = Frame(parent)
         a = fn.args
@@ -338,7 +536,7 @@ class KernelTranslator:
         fr.ret = self.newvar(f'{label}.<ret>')
         body = fn.body if isinstance(fn.body, list) else [fn.body]
         for n in bound_names(body):
-            if n not in fr.names:
+            if n not in fr.names and n not in self.ctx.modalias[rel or self.rel]:
                 fr.names[n] = self.newvar(f'{label}.{n}')
         return fr, pos, [p.arg for p in a.kwonlyargs], va, kw
 
@@ -365,7 +563,28 @@ class KernelTranslator:
             if k.arg in fr.names and (k.arg in pos or k.arg in kwonly): self.assign(fr.names[k.arg], v, line)
             elif kw is not None: self.assign(kw, v.wrap(), line)
 
-    def inline(self, call, frame, rel, fn):
+    def tensor_ctor(self, c, fr):
+        """`Tensor(d, children=…, …)`: a new object; see the header for the model"""
+        line = c.lineno
+        allv, pos, kws = self.args_val(c, fr)
+        d = pos[0] if pos else kws.get('data', NOTHING)
+        ch = kws.get('children', pos[1] if len(pos) > 1 else NOTHING)
+        r = self.newvar(f'<Tensor@{line}>')
+        self.raw_assign(r, None, line)
+        self.fielded.add(r)
+        arrays = [x for x in d.srcs]
+        self.raw_assign(self.field(r, 'data'), arrays, line)          # np.asarray / astype of the argument: the argument or a copy
+        self.raw_assign(self.field(r, 'data'), None, line)
+        has_children = 'children' in kws or len(pos) > 1
+        # a tensor built with `children=` is a *result*: when its closure runs the engine has stored the upstream gradient on it
+        self.raw_assign(self.field(r, '_grad'), [self.upstream] if has_children else None, line)
+        self.assign(self.kids, ch, line)
+        for x in sorted(d.srcs, key=vkey):                                # copy constructor: `self.__dict__.update(tensor.__dict__)`
+            if self.can_have_fields(x) and (self.is_fielded(x)):
+                self.link(r, x, line)
+        return Val([r], 0)
+
+    def inline(self, call, frame, rel, fn, self_val=None):
         line = call.lineno
         if (rel, fn.name) in self.stack or len(self.stack) > MAX_DEPTH:
             # recursion / depth: "result may alias every argument, no write" (justified by the table theorem)
@@ -376,12 +595,15 @@ class KernelTranslator:
             return Val(allv.srcs, DEEP)
         self.inlined += 1
         label = f'{fn.name}@{line}' + (f'#{len(self.varnames)}')
-        sig = self.callee_frame(fn, label)
+        sig = self.callee_frame(fn, label, rel=rel)
         fr = sig[0]
         for d in list(fn.args.defaults) + [d for d in fn.args.kw_defaults if d is not None]:
             self.ev(d, Frame())
+        if self_val is not None and sig[1]:
+            self.assign(fr.names[sig[1][0]], self_val, line)
+            sig = (sig[0], sig[1][1:]) + tuple(sig[2:])
         self.bind_call(call, frame, sig, line)
-        if fn.decorator_list:
+        if fn.decorator_list and self_val is None:
             self.unsupported_construct(fn, 'decorated function')
         saved = self.rel
         self.rel = rel
@@ -439,6 +661,34 @@ class KernelTranslator:
                 self.store(e, val if isinstance(e, ast.Starred) else val.elem(), fr, line, aug, op)
         elif isinstance(target, ast.Starred):
             self.store(target.value, Val(val.srcs, max(val.cont, 1)), fr, line, aug, op)
+        elif isinstance(target, ast.Attribute) and self.phase > 1 and (target.attr in FIELDS or target.attr in ('grad', '_children') or target.attr in TENSOR_META_ATTRS):
+            base = self.ev(target.value, fr)
+            attr = target.attr
+            if attr in TENSOR_META_ATTRS:
+                return                           # flags and bookkeeping of a tensor: not data (see the header)
+            if attr == '_children':
+                self.assign(self.kids, val, line)
+                return
+            f = '_grad' if attr == 'grad' else attr
+            v = Val([self.field(x, 'data') for x in val.srcs], 0) if attr == 'grad' else val      # the setter stores `grad.data`
+            arrays = [b for b in base.srcs if not self.can_have_fields(b)]
+            if arrays:
+                self.write(Val(arrays), line)    # an attribute store on an array
+            fname = self.stack[-1][1] if self.stack else ''
+            tname = target.value.id if isinstance(target.value, ast.Name) else ''
+            for b in sorted((b for b in base.srcs if self.can_have_fields(b)), key=vkey):
+                fv = self.field(b, f)
+                if fv == b:
+                    self.write(Val([b]), line); continue
+                if aug:
+                    self.write(Val([fv]), line)                       # in-place accumulation `t._grad += g` (the field holds an array)
+                    continue
+                self.rebound.add(f)
+                self.raw_assign(fv, list(v.srcs), line)
+                if f == '_grad':
+                    self.write(Val([fv]), line)                       # a later closure accumulates into whatever it is bound to
+                elif f == 'data' and (fname, tname) not in DATA_REBIND_ALLOWED:
+                    self.write(Val([fv]), line)                       # the tensor's data changes although no buffer is written
         elif isinstance(target, (ast.Subscript, ast.Attribute)):
             base = self.ev(target.value, fr)
             if isinstance(target, ast.Subscript):
@@ -450,8 +700,10 @@ class KernelTranslator:
             # element itself, or the new object `c[i] op e`, which holds references into `e` only when `e` is a container
             # (concatenation) or when op is `+` (a list element extended by the rows of an array)
             keeps = not aug or val.cont or isinstance(op, ast.Add)
-            if val.srcs and keeps and (isinstance(target, ast.Attribute) or base.cont or val.cont or any(self.is_cont(b) for b in base.srcs)):
-                for b in sorted(base.srcs):
+            if self.phase > 1:
+                self.write_deep(base, line)
+            if val.srcs and keeps and (isinstance(target, ast.Attribute) or base.cont or any(self.is_cont(b) for b in base.srcs)):
+                for b in sorted(base.srcs, key=vkey):
                     self.assign(b, Val([b]) | val, line)
         else:
             self.unsupported_construct(target, f'assignment target {type(target).__name__}')
@@ -506,7 +758,9 @@ class KernelTranslator:
             if s.msg is not None: self.ev(s.msg, fr)
         elif isinstance(s, ast.Delete):
             for t in s.targets:
-                if isinstance(t, (ast.Subscript, ast.Attribute)):
+                if self.phase > 1 and isinstance(t, ast.Attribute) and (t.attr in FIELDS or t.attr in TENSOR_META_ATTRS):
+                    self.ev(t.value, fr)             # `del node._grad`: the cell is emptied, no array is touched
+                elif isinstance(t, (ast.Subscript, ast.Attribute)):
                     self.write(self.ev(t.value, fr), line)
         elif isinstance(s, ast.FunctionDef):
             fr.nested[s.name] = self.nested_def(s, fr)
@@ -514,7 +768,8 @@ class KernelTranslator:
         elif isinstance(s, (ast.Pass, ast.Break, ast.Continue, ast.Nonlocal)):
             pass
         elif isinstance(s, (ast.Import, ast.ImportFrom)):
-            self.unsupported_construct(s, 'import inside a function')
+            if not all((a.asname or a.name) in self.ctx.modalias[self.rel] for a in s.names):      # `from . import functional as F`
+                self.unsupported_construct(s, 'import inside a function')
         else:
             self.unsupported_construct(s, f'statement {type(s).__name__}')
 
@@ -559,6 +814,13 @@ class KernelTranslator:
                 res = self.ctx.resolve(self.rel, f.id)
                 if res is not None:
                     return self.inline(c, fr, *res)
+                if self.phase > 1 and self.ctx.is_tensor_class(self.rel, f.id):
+                    return self.tensor_ctor(c, fr)
+        if isinstance(f, ast.Attribute) and isinstance(f.value, ast.Name) and fr.lookup(f.value.id) is None \
+                and f.value.id in self.ctx.modalias[self.rel] and f.value.id not in self.ctx.rebound[self.rel]:
+            res = self.ctx.resolve_attr(self.rel, f.value.id, f.attr)
+            if res is not None:
+                return self.inline(c, fr, *res)
 
         allv, pos, kws = self.args_val(c, fr)
         out = NOTHING
@@ -571,7 +833,7 @@ class KernelTranslator:
         def extra_positional(nsafe):
             """positional arguments beyond the ones known not to be `out` are treated as written"""
             nonlocal out
-            if starred:
+            if starred and nsafe is not None:
                 self.write(allv, line); out = out | allv
             elif nsafe is not None:
                 for v in pos[nsafe:]:
@@ -603,17 +865,19 @@ class KernelTranslator:
             if name in NP_SCALAR:
                 return out
             self.unknown.append(f'np.{name} (line {line})')
-            self.write(allv, line)
+            self.write_deep(allv, line)
             return Val(allv.srcs, DEEP)
 
         if isinstance(f, ast.Name):
             r = fr.lookup(f.id)
-            if r is None and f.id not in self.ctx.rebound[self.rel] and f.id not in self.ctx.imported[self.rel]:
+            if r is None and f.id not in self.ctx.rebound[self.rel] and (f.id not in self.ctx.imported[self.rel] or f.id in PURE_CLASSES):
                 if f.id in B_UNSUPPORTED:
                     self.unsupported_construct(c, f'call of {f.id}')
                     return Val(allv.srcs, DEEP)
                 if f.id in B_SCALAR:
                     return out
+                if f.id in PURE_CLASSES and (f.id in {n for cl in self.ctx.classes.values() for n in cl} ):
+                    return Val(allv.srcs, DEEP)
                 if f.id in B_ALIAS:
                     if f.id in ('zip', 'enumerate'):          # an iterable of tuples of elements
                         return Val(allv.srcs, max(allv.cont, 1) + 1)
@@ -623,7 +887,7 @@ class KernelTranslator:
                         return allv.elem()
                     return Val(allv.srcs, max(allv.cont, 1) if f.id in B_ALIAS_CONT else allv.cont)
             self.unknown.append(f'{f.id} (line {line})')
-            self.write(allv, line)
+            self.write_deep(allv, line)
             if r is not None and r[0] == 'var':
                 pass                                   # a local holding a callable (lambda): its body is translated where defined
             return Val(allv.srcs, DEEP)
@@ -634,17 +898,30 @@ class KernelTranslator:
             everything = Val(recv.srcs | allv.srcs, DEEP)
             if m in M_NOOP:
                 return out
+            tm_rel, tm = self.ctx.tensor_methods()
+            objs = [x for x in recv.srcs if self.can_have_fields(x)]
+            if self.phase > 1 and m == 'grad_fn':
+                # running a backward closure: it accumulates into `_grad` buffers of the tensors reachable from the receiver
+                for x in sorted(objs, key=vkey):
+                    self.stmts.append(('write', self.field(x, '_grad'), line))
+                return NOTHING
+            numpy_name = m in M_WRITERS or m in M_CONTAINER_ADD or m in M_FRESH or m in M_ALIAS or m in ('copy', 'astype')
+            if self.phase > 1 and m in tm and not numpy_name and objs and f'Tensor.{m}' not in NOT_ANALYSED and m not in ('__init__', 'copy_from'):
+                return self.inline(c, fr, tm_rel, tm[m], self_val=Val(objs, recv.cont, recv.ident))
+            also = Val(recv.srcs, recv.cont) if (self.phase > 1 and m in tm and numpy_name) else NOTHING     # a Tensor method of the same name: result may be a view
+            if m in M_CONTAINER_ONLY:
+                self.write(Val(recv.ident), line)
+                if m in M_CONTAINER_ADD:
+                    for b in sorted(recv.srcs, key=vkey):
+                        self.assign(b, Val([b], max(recv.cont, 1)) | allv.wrap(), line)
+                    return Val(recv.srcs | allv.srcs, DEEP)
+                return Val(recv.srcs | out.srcs, recv.cont)
             if m in M_WRITERS:
                 self.write(recv, line)
                 return Val(recv.srcs | out.srcs, recv.cont)
-            if m in M_CONTAINER_ADD:
-                self.write(recv, line)
-                for b in sorted(recv.srcs):
-                    self.assign(b, Val([b], max(recv.cont, 1)) | allv.wrap(), line)
-                return Val(recv.srcs | allv.srcs, DEEP)
             if m == 'copy':
                 extra_positional(1)
-                return Val((recv.srcs if recv.cont else frozenset()) | out.srcs, recv.cont)
+                return Val((recv.srcs if recv.cont else frozenset()) | out.srcs, recv.cont) | also
             if m == 'astype':
                 copy_kw = next((k.value for k in c.keywords if k.arg == 'copy'), None)
                 if (copy_kw is None or (isinstance(copy_kw, ast.Constant) and copy_kw.value is True)) and len(pos) <= 4 and not starred:
@@ -652,17 +929,17 @@ class KernelTranslator:
                 return Val(recv.srcs | out.srcs, False)
             if m in M_FRESH:
                 extra_positional(M_FRESH[m])
-                return Val(out.srcs, 1 if m in ('nonzero',) else 0)
+                return Val(out.srcs, 1 if m in ('nonzero',) else 0) | also
             if m in M_ALIAS:
                 return Val(recv.srcs | (allv.srcs if recv.cont else frozenset()), recv.cont)
             self.unknown.append(f'.{m} (line {line})')
-            self.write(everything, line)
+            self.write_deep(everything, line)
             return everything
 
         # a call of an arbitrary expression
         callee = self.ev(f, fr)
         self.unknown.append(f'{ast.unparse(f)[:30]} (line {line})')
-        self.write(allv | callee, line)
+        self.write_deep(allv | callee, line)
         return Val(allv.srcs | callee.srcs, DEEP)
 
     def comprehension(self, e, fr):
@@ -687,11 +964,26 @@ class KernelTranslator:
             if r[0] == 'nested':
                 self.escape(r[1])
                 return NOTHING
-            return Val([r[1]], self.is_cont(r[1]))
+            v = r[1]
+            return Val([v], self.is_cont(v), self.ident.get(v, set()) | self.ident_in.get(v, set()) | ({v} if v in self.params else set()))
         if isinstance(e, ast.Attribute):
             b = self.ev(e.value, fr)
             if e.attr in SCALAR_ATTRS:
                 return NOTHING
+            if self.phase > 1 and e.attr in TENSOR_SCALAR_ATTRS:
+                return NOTHING
+            if self.phase > 1 and e.attr in FIELDS:
+                return Val([self.field(x, e.attr) for x in b.srcs], 0)
+            if self.phase > 1 and e.attr == '_children':
+                return Val(list(b.srcs) + [self.kids], max(b.cont, 1), b.ident)
+            if self.phase > 1 and e.attr == 'grad' and b.srcs:
+                # the getter builds a new tensor around the gradient buffer itself: `t.grad.data` IS `t._grad`
+                g = self.newvar(f'<{ast.unparse(e)[:24]}@{e.lineno}>')
+                self.raw_assign(g, None, e.lineno)
+                self.fielded.add(g)
+                self.raw_assign(self.field(g, 'data'), [self.field(x, '_grad') for x in b.srcs], e.lineno)
+                self.raw_assign(self.field(g, '_grad'), None, e.lineno)
+                return Val([g], 0)
             return b
         if isinstance(e, ast.Subscript):
             b = self.ev(e.value, fr)
@@ -764,45 +1056,58 @@ class KernelTranslator:
         return Val(v.srcs, DEEP)
 
 
-def translate(ctx, rel, fn):
-    """translate one top-level function; iterated until the set of container-tainted variables is stable"""
-    cont = {}
-    for _ in range(40):
-        t = KernelTranslator(ctx, rel, fn, cont)
+def translate(ctx, rel, fn, qualname=None):
+    """translate one function; iterated until the flow-insensitive side information (container depths, which variables
+    hold objects with fields, which fields are re-bound, container identities) is stable"""
+    carry = {}
+    for _ in range(60):
+        t = KernelTranslator(ctx, rel, fn, carry, qualname)
         t.top()
-        if t.cont == cont:
+        new = t.carry()
+        if new == carry:
             break
-        cont = dict(t.cont)
+        carry = new
     else:
-        t.unsupported_construct(fn, 'container analysis did not stabilise')
-    # canonical form: statements de-duplicated (first occurrence kept), unused locals renumbered away
+        t.unsupported_construct(fn, 'side information did not stabilise')
+    # canonical form: statements de-duplicated (first occurrence kept), variables renumbered: parameters first
     seen, stmts = set(), []
     for s in t.stmts:
         key = s[:3] if s[0] == 'assign' else s[:2]
-        if key not in seen:
+        if key not in seen and not (s[0] == 'assign' and s[2] == frozenset([s[1]])):
             seen.add(key); stmts.append(s)
-    used = set(range(t.nparams + 1))          # the parameters and `<ret>` keep their numbers
+    order = list(t.params) + [t.result]
+    mentioned = []
     for s in stmts:
-        used.add(s[1])
+        mentioned.append(s[1])
         if s[0] == 'assign' and s[2]:
-            used |= s[2]
-    ren = {v: i for i, v in enumerate(sorted(used))}
+            mentioned += sorted(s[2], key=vkey)
+    for v in mentioned:
+        if v not in order:
+            order.append(v)
+    # unused locals dropped; order of first mention kept for readability
+    seen_o, final = set(), []
+    for v in order:
+        if v not in seen_o:
+            seen_o.add(v); final.append(v)
+    ren = {v: i for i, v in enumerate(final)}
+    def vname(v):
+        return f'{vname(v[0])}.{v[1]}' if isinstance(v, tuple) else t.varnames[v]
     out = []
     for s in stmts:
         if s[0] == 'assign':
             out.append(('assign', ren[s[1]], None if s[2] is None else tuple(sorted(ren[x] for x in s[2])), s[3]))
         else:
             out.append(('write', ren[s[1]], s[2]))
-    return {'name': fn.name, 'file': rel, 'line': fn.lineno, 'nparams': t.nparams, 'protected': [ren[p] for p in t.protected],
-            'body': out, 'varnames': [t.varnames[v] for v in sorted(used)], 'unknown': t.unknown, 'unsupported': t.unsupported,
-            'inlined': t.inlined, 'fallbacks': t.fallbacks}
+    return {'name': qualname or fn.name, 'file': rel, 'line': fn.lineno, 'nparams': t.nparams, 'protected': [ren[p] for p in t.protected],
+            'ret': ren[t.result], 'phase': t.phase, 'body': out, 'varnames': [vname(v) for v in final], 'unknown': t.unknown,
+            'unsupported': t.unsupported, 'inlined': t.inlined, 'fallbacks': t.fallbacks}
 
 
 # ------------------------------------------------------------------------------------- diagnostics
 def analyse(k):
     """the same analysis as Synap.Effects.solve / safe, in Python — DIAGNOSTICS ONLY (which write offends, which results
     are views); the verdict that counts is the Lean theorem"""
-    n = max([k['nparams']] + [s[1] + 1 for s in k['body']] + [x + 1 for s in k['body'] if s[0] == 'assign' and s[2] for x in s[2]])
+    n = max([k['nparams'], k.get('ret', 0) + 1] + [s[1] + 1 for s in k['body']] + [x + 1 for s in k['body'] if s[0] == 'assign' and s[2] for x in s[2]])
     pts = [({v} if v < k['nparams'] else set()) for v in range(n)]
     changed = True
     while changed:
@@ -821,10 +1126,47 @@ def extract_all(root=None):
     root = root or common.REPO
     ctx = Context(root)
     kernels = []
-    for rel in MODULES:
+    for rel in MODULES + WRAPPER_MODULES + TENSOR_MODULES:
+        if rel not in ctx.funcs:
+            continue
         for name, fn in ctx.funcs[rel].items():
-            kernels.append(translate(ctx, rel, fn))
+            if name not in NOT_ANALYSED:
+                kernels.append(translate(ctx, rel, fn))
+        if rel in TENSOR_MODULES:
+            for name, fn in ctx.classes[rel].get('Tensor', {}).items():
+                q = f'Tensor.{name}'
+                if any(ast.unparse(d).endswith('.setter') for d in fn.decorator_list):
+                    q += '.setter'
+                if q not in NOT_ANALYSED and name not in ('__init__', 'copy_from'):
+                    kernels.append(translate(ctx, rel, fn, q))
+    if any(r in ctx.funcs for r in TENSOR_MODULES):
+        check_tensor_model(ctx)
     return ctx, kernels
+
+
+def check_tensor_model(ctx):
+    """the constructor / `grad` property model of the header, compared with tensor.py; a difference raises (broken extractor)"""
+    rel, tm = ctx.tensor_methods()
+    init = tm['__init__']
+    stores = {}
+    for n in ast.walk(init):
+        if isinstance(n, ast.Assign):
+            for t in n.targets:
+                if isinstance(t, ast.Attribute) and isinstance(t.value, ast.Name) and t.value.id == 'self':
+                    stores.setdefault(t.attr, []).append(ast.unparse(n.value))
+    problems = []
+    if stores.get('data') != ['data']: problems.append(f'__init__ stores self.data = {stores.get("data")}')
+    if stores.get('_grad') != ['None']: problems.append(f'__init__ stores self._grad = {stores.get("_grad")}')
+    if not set(stores) - {'data', '_grad'} <= TENSOR_META_ATTRS | {'_children'}: problems.append(f'__init__ stores {sorted(set(stores))}')
+    cls = [n for r in TENSOR_MODULES for n in ast.parse(open(os.path.join(ctx.root, r)).read()).body if isinstance(n, ast.ClassDef) and n.name == 'Tensor'][0]
+    getter = [m for m in cls.body if isinstance(m, ast.FunctionDef) and m.name == 'grad' and any(ast.unparse(d) == 'property' for d in m.decorator_list)]
+    setter = [m for m in cls.body if isinstance(m, ast.FunctionDef) and m.name == 'grad' and any(ast.unparse(d) == 'grad.setter' for d in m.decorator_list)]
+    if not getter or not [r for r in ast.walk(getter[0]) if isinstance(r, ast.Return) and ast.unparse(r.value).startswith('Tensor(self._grad,')]:
+        problems.append('the grad getter does not return Tensor(self._grad, …)')
+    sst = [ast.unparse(n) for m in setter for n in ast.walk(m) if isinstance(n, ast.Assign)]
+    if sst != ['self._grad = grad.data']: problems.append(f'the grad setter stores {sst}')
+    if problems:
+        raise RuntimeError('tensor.py no longer matches the Tensor model of harness/effects.py: ' + '; '.join(problems))
 
 
 def lean_stmt(s):
@@ -836,48 +1178,64 @@ def lean_stmt(s):
 
 
 def render(kernels):
-    rows = []
-    for k in kernels:
-        names = ' '.join(f'{i}={n}' for i, n in enumerate(k['varnames']) if i <= k['nparams'])
-        body = ',\n     '.join(', '.join(lean_stmt(s) for s in k['body'][i:i + 6]) for i in range(0, len(k['body']), 6))
-        rows.append(f"  -- {k['name']}: {names}; {len(k['varnames'])} variables, {k['inlined']} inlined calls\n"
-                    f"  ⟨{_ex.lean_str(k['name'])}, {_ex.lean_str(k['file'])}, {k['line']}, {k['nparams']}, "
-                    f"[{', '.join(map(str, k['protected']))}],\n    [{body}]⟩")
+    def rows_of(ks):
+        rows = []
+        for k in ks:
+            names = ' '.join(f'{i}={n}' for i, n in enumerate(k['varnames']) if i < k['nparams'] or i == k['ret'])
+            body = ',\n     '.join(', '.join(lean_stmt(s) for s in k['body'][i:i + 6]) for i in range(0, len(k['body']), 6))
+            rows.append(f"  -- {k['name']}: {names}; {len(k['varnames'])} variables, {k['inlined']} inlined calls\n"
+                        f"  ⟨{_ex.lean_str(k['name'])}, {_ex.lean_str(k['file'])}, {k['line']}, {k['nparams']}, "
+                        f"[{', '.join(map(str, k['protected']))}], {k['ret']},\n    [{body}]⟩")
+        return ',\n'.join(rows)
     return ('import SynapModel.Effects\n'
-            '/-! GENERATED by harness/effects.py from /repo/synapgrad/cpu_ops.py and conv_tools.py — do not edit.\n'
-            '    One effect program per top-level function; see SynapModel/Effects.lean for the statement language\n'
-            '    and harness/effects.py for the translation rules. -/\n'
+            '/-! GENERATED by harness/effects.py from /repo/synapgrad/{cpu_ops,conv_tools,functional,nn/functional,tensor}.py — do not edit.\n'
+            '    One effect program per function; see SynapModel/Effects.lean for the statement language and harness/effects.py\n'
+            '    for the translation rules.  `effectTable`: the NumPy kernels (every parameter is protected).  `tensorEffectTable`:\n'
+            '    the op wrappers with their `backward` closures, the methods of `Tensor` and the constructors; parameters come in\n'
+            '    triples `t`, `t.data` (protected), `t._grad` (the gradient buffer, not protected) plus `<upstream>` (protected). -/\n'
             'namespace Synap.Generated\nopen Synap.Effects\n\n'
-            'def effectTable : List Kernel := [\n' + ',\n'.join(rows) + '\n]\n\nend Synap.Generated\n')
+            'def effectTable : List Kernel := [\n' + rows_of([k for k in kernels if k['phase'] == 1]) + '\n]\n\n'
+            'def tensorEffectTable : List Kernel := [\n' + rows_of([k for k in kernels if k['phase'] > 1]) + '\n]\n\nend Synap.Generated\n')
 
 
 def summarise(ctx, kernels):
-    nst = sum(len(k['body']) for k in kernels)
-    nwr = sum(1 for k in kernels for s in k['body'] if s[0] == 'write')
-    unknown = [f"{k['name']}: {u}" for k in kernels for u in k['unknown']]
-    unsup = [f"{k['name']}: {u}" for k in kernels for u in k['unsupported']]
-    bad, views = [], []
-    for k in kernels:
-        pts, b = analyse(k)
-        for v, line, roots in b:
-            bad.append(f"{k['file']}:{line} {k['name']}: write through `{k['varnames'][v]}` may reach parameter(s) "
-                       f"{[k['varnames'][r] for r in roots]}")
-        ret = k['nparams']                                    # `<ret>` is the first variable after the parameters
-        if ret < len(pts) and pts[ret]:
-            views.append(f"{k['name']}←{','.join(k['varnames'][r] for r in sorted(pts[ret]))}")
-    lines = [f"effect table: {len(kernels)} functions translated ({', '.join(f'{sum(1 for k in kernels if k['file'] == r)} from {r}' for r in MODULES)}), "
-             f"{nst} statements, {nwr} writes, {sum(k['inlined'] for k in kernels)} inlined calls, "
-             f"{sum(k['fallbacks'] for k in kernels)} call fall-backs, {len(unknown)} unknown calls, {len(unsup)} unsupported constructs, "
-             f"output parameters: {sum(len(v) for v in OUTPUT_PARAMS.values())}"]
-    if unknown: lines.append('effect table: unknown calls (treated as writing every argument): ' + '; '.join(unknown[:12]))
-    if unsup: lines.append('effect table: unsupported constructs (treated as writing every parameter): ' + '; '.join(unsup[:12]))
-    other = [f'{r}: {x}' for r in MODULES for x in ctx.other_toplevel[r]]
-    if other: lines.append('effect table: top-level definitions that are not plain functions (NOT analysed): ' + '; '.join(other))
-    lines.append('effect table: kernels whose result may be a view of an operand (no write, but the caller gets shared memory): '
-                 + (' '.join(views) or 'none'))
-    if bad:
-        lines.append('effect table: PREDICTED UNSAFE (the Lean theorem kernels_never_write_operands will not build): ' + ' | '.join(bad[:12]))
-    return lines, bad
+    lines, bad_all = [], []
+    for label, phases, mods in (('effect table', (1,), MODULES), ('tensor effect table', (2, 3), WRAPPER_MODULES + TENSOR_MODULES)):
+        ks = [k for k in kernels if k['phase'] in phases]
+        if not ks:
+            continue
+        nst = sum(len(k['body']) for k in ks)
+        nwr = sum(1 for k in ks for s in k['body'] if s[0] == 'write')
+        unknown = [f"{k['name']}: {u}" for k in ks for u in k['unknown']]
+        unsup = [f"{k['name']}: {u}" for k in ks for u in k['unsupported']]
+        bad, views = [], []
+        for k in ks:
+            pts, b = analyse(k)
+            for v, line, roots in b:
+                bad.append(f"{k['file']}:{line} {k['name']}: write through `{k['varnames'][v]}` may reach parameter(s) "
+                           f"{[k['varnames'][r] for r in roots]}")
+            if pts[k['ret']]:
+                views.append(f"{k['name']}←{','.join(k['varnames'][r] for r in sorted(pts[k['ret']]))}")
+            elif k['name'] in FRESH_RESULTS:
+                views.append(f"[{k['name']}: fresh]")
+        head = (f"{label}: {len(ks)} functions translated ({', '.join(f'{sum(1 for k in ks if k['file'] == r)} from {r}' for r in mods)}), "
+                f"{nst} statements, {nwr} writes, {sum(k['inlined'] for k in ks)} inlined calls, "
+                f"{sum(k['fallbacks'] for k in ks)} call fall-backs, {len(unknown)} unknown calls, {len(unsup)} unsupported constructs")
+        if phases == (1,):
+            head += f", output parameters: {sum(len(v) for v in OUTPUT_PARAMS.values())}"
+        else:
+            head += f"; not analysed (documented in effects.py): {', '.join(sorted(NOT_ANALYSED))}, Tensor.__init__/copy_from (modelled, model checked against tensor.py)"
+        lines.append(head)
+        if unknown: lines.append(f'{label}: unknown calls (treated as writing every argument): ' + '; '.join(unknown[:12]))
+        if unsup: lines.append(f'{label}: unsupported constructs (treated as writing every parameter): ' + '; '.join(unsup[:12]))
+        other = [f'{r}: {x}' for r in mods if r in ctx.other_toplevel for x in ctx.other_toplevel[r]]
+        if other: lines.append(f'{label}: top-level definitions that are not plain functions (NOT analysed): ' + '; '.join(other))
+        lines.append(f'{label}: functions whose result may share memory with an operand (no write, but the caller gets shared memory): '
+                     + (' '.join(views) or 'none'))
+        if bad:
+            lines.append(f'{label}: PREDICTED UNSAFE (the Lean table theorem will not build): ' + ' | '.join(bad[:12]))
+        bad_all += bad
+    return lines, bad_all
 
 
 def write_effect_table(root=None, out=None):
